@@ -22,9 +22,14 @@ CHECKS = {
                      'as OP_* calls and as formulas, equal the order number < text(case-insensitive) < FALSE < TRUE for ALL values in the bounds; trichotomy/duality/'
                      'transitivity asserted directly; blank = 0 = "" = FALSE and blank = blank.',
                 note=XH_NOTE + ' Text-vs-text is bounded to a 6-letter alphabet (length <= 2) plus all code points at length <= 1 because of z3 string-order cost.'),
+    'C17': dict(engine='XH', technique='symbolic execution (CrossHair+z3) of the text functions on symbolic text/positions vs slicing oracles and the stated identities',
+                text='Bounded symbolic model checking: LEN, LEFT, RIGHT, MID, FIND, REPLACE, UPPER, LOWER, TRIM, EXACT, CONCAT, CONCATENATE and & equal 1-based slicing for ALL '
+                     'texts (all code points, length <= 3; thorough 4) and ALL positions/counts from below 1 to beyond the length; identities asserted on the implementation; '
+                     'library and formula forms; numbers/booleans as text.',
+                note=XH_NOTE + ' FIND is bounded tighter (|s| <= 2 unicode; |s| <= 3..4 over the alphabet abA) because of z3 string cost.'),
 }
 NA = {
     'C12': 'persist/restore is ten lines around jsonpickle -> json (C encoder) -> gzip/file I/O; no repo-side kernel a solver can quantify over (symbolic values are realised or pickled as proxy objects at the codec boundary)',
 }
-for _p in ['C03', 'C04', 'C05', 'C06', 'C07', 'C08', 'C10', 'C11', 'C13', 'C14', 'C15', 'C16', 'C17', 'C18', 'C19', 'C20']:
+for _p in ['C03', 'C04', 'C05', 'C06', 'C07', 'C08', 'C10', 'C11', 'C13', 'C14', 'C15', 'C16', 'C18', 'C19', 'C20']:
     NA.setdefault(_p, 'check not built yet in this revision (planned: see DESIGN.md §4)')
